@@ -73,3 +73,43 @@ Fixpoint ks_text_order (a b : list N) : comparison :=
   | _ :: _, [] => Gt
   | x :: a', y :: b' => if x <? y then Lt else if y <? x then Gt else ks_text_order a' b'
   end.
+
+(* ------------------------------------------------------------------ UTF-16BE text strings (7.9.2.2; RFC 2781) *)
+(* a 16-bit unit, big-endian, is a character of the Basic Multilingual Plane, or the first (D800..DBFF) or the second
+   (DC00..DFFF) half of a surrogate pair; a pair (hi, lo) is the character 0x10000 + (hi - 0xD800) * 0x400 + (lo - 0xDC00).
+   Strict: an odd number of bytes, a first half not followed by a second half, or a second half alone, have no text. *)
+Inductive ks_unit : Type := KsPlain (u : N) | KsHigh (part : N) | KsLow (part : N).
+Definition ks_unit_of (a b : N) : ks_unit :=
+  let u := a * 256 + b in
+  if (55296 <=? u) && (u <? 56320) then KsHigh (65536 + (u - 55296) * 1024)
+  else if (56320 <=? u) && (u <? 57344) then KsLow (u - 56320)
+  else KsPlain u.
+
+Fixpoint ks_utf16be (l : list N) : option (list N) :=
+  match l with
+  | [] => Some []
+  | a :: b :: t =>
+      if (256 <=? a) || (256 <=? b) then None else
+      match ks_unit_of a b with
+      | KsPlain u => match ks_utf16be t with Some r => Some (u :: r) | None => None end
+      | KsLow _ => None
+      | KsHigh hi =>
+          match t with
+          | a2 :: b2 :: t2 =>
+              if (256 <=? a2) || (256 <=? b2) then None else
+              match ks_unit_of a2 b2 with
+              | KsLow lo => match ks_utf16be t2 with Some r => Some (hi + lo :: r) | None => None end
+              | _ => None
+              end
+          | _ => None
+          end
+      end
+  | _ :: [] => None
+  end.
+
+(* the text of a stored string in one of the two spellings qpdf itself writes (QPDFObjectHandle::newUnicodeString:
+   PDFDocEncoding when the text can be written so, UTF-16BE with the mark FE FF otherwise) *)
+Definition ks_has_be_mark (s : list N) : bool :=
+  match s with a :: b :: _ => (a =? 254) && (b =? 255) | _ => false end.
+Definition ks_text (s : list N) : option (list N) :=
+  if ks_has_be_mark s then ks_utf16be (skipn 2 s) else ks_pdfdoc_text s.
